@@ -7,8 +7,11 @@ EXPLANATION = (
     "the strict comparison len(table) < max_workers with exactly one unconditional insertion per iteration after start(), "
     "keyed by pid; every accepting path of submit reaches the top-up and the top-up condition (decision table) is true "
     "whenever the pool is short; the worker main runs calls sequentially; every caller of the spawn routine holds the "
-    "processes management lock (one named exception with reason); the manager's respawn re-checks the size. "
-    "Not decided: that parallelism is actually delivered (scheduling/performance); the queue-capacity constant."
+    "processes management lock (one named exception with reason); the manager's respawn re-checks the size and its pending "
+    "count includes submitted, undispatched work; the capacity term of the call queue, evaluated over sample sizes, is at "
+    "least max_workers in force -- the manager is not woken when a worker takes an item, so a smaller queue starves idle "
+    "workers (R-QUEUE-CAP; the reusable executor's 2*cpu_count()+1 is known finding D18). "
+    "Not decided: that parallelism is actually delivered as such (scheduling/performance)."
 )
 
 
@@ -18,5 +21,6 @@ def run(e, R, tier):
         T.r_spawn_locked,
         T.r_respawn_guard,
         X.r_resize,
+        T.r_queue_cap,
     ])
 
